@@ -85,7 +85,7 @@ def backend_corpus(seed, tier):
         gs.append(('lay%d' % i, gram.layered_expr(rnd)))
     for i in range(4 if tier == 'quick' else 40):
         gs.append(('ring%d' % i, gram.ring_grammar(rnd, nullable=bool(i % 2))))
-    n = 120 if tier == 'quick' else 1500
+    n = 300 if tier == 'quick' else 3000
     for i in range(n):
         kind = i % 4
         if kind == 0:
@@ -116,7 +116,7 @@ def backend_shared(ctx):
 def i6_corpus(seed, tier):
     rnd = random.Random(seed * 104729 + 7)
     gs = [('c_' + k, genrun.fix_tags(g)) for k, g in gram.curated().items()]
-    n = 50 if tier == 'quick' else 300
+    n = 100 if tier == 'quick' else 600
     for i in range(n):
         if i % 5 == 4:
             g = gram.operator_grammar(rnd, nlev=rnd.randint(1, 3))
